@@ -1196,7 +1196,12 @@ func (c *c13Case) coqTerm() (string, bool) {
 		}
 		items = append(items, fmt.Sprintf("(%s, %s)", op, out))
 	}
-	return fmt.Sprintf("mkcase %d %d %d %s %s", c.Id, c.Kind, c.Mode, c13UrlTable(c), coqList(items)), true
+	kind := c.Kind
+	if os.Getenv("VERIF_C13_MODEL") == "unrepaired" {
+		// validation of the unrepaired model (behind the `_refuted` theorems) against the unrepaired code
+		kind += 2
+	}
+	return fmt.Sprintf("mkcase %d %d %d %s %s", c.Id, kind, c.Mode, c13UrlTable(c), coqList(items)), true
 }
 
 func TestVerifC13(t *testing.T) {
